@@ -731,9 +731,23 @@ class Interp:
                 except Raise:
                     merged = None  # the right operand cannot be evaluated here: decide the left one
                 except Unsupported:
-                    if snap:
-                        raise
+                    # short-circuit semantics: the right operand only matters where the left one lets it be
+                    # evaluated; evaluate it with that assumed (e.g. `i + 1 < len(xs) and xs[i + 1] ...`)
                     merged = None
+                    try:
+                        self.ctx.pure_depth = snap + 1
+
+                        def right():
+                            r2 = self.eval(nxt, env)
+                            return self.as_bool_expr(r2)
+                        rb = self.ctx.eval_under(cb if is_and else z3.Not(cb), right)
+                        if rb is not None:
+                            merged = z3.And(cb, rb) if is_and else z3.Or(cb, rb)
+                    except (Unsupported, Raise):
+                        merged = None
+                    if merged is None and snap:
+                        self.ctx.pure_depth = snap
+                        raise
                 finally:
                     self.ctx.pure_depth = snap
                 if merged is not None:
